@@ -26,7 +26,10 @@ Proof.
 Qed.
 
 Lemma stray_not_dollar c : stray_wf c -> not_dollar (hd_error (stray_text c)).
-Proof. destruct c as [|k|x]; cbn; [reflexivity| |reflexivity]. destruct k; [congruence|reflexivity|reflexivity]. Qed.
+Proof.
+  destruct c as [|k|x]; cbn; [reflexivity| |reflexivity].
+  destruct k; [intros [? _]; congruence|reflexivity|reflexivity|intros [_ ?]; congruence].
+Qed.
 
 (** * A stray closing token that does not close the construct it is put in *)
 Theorem fault_closing_doc cx path l1 l2 dtr c :
@@ -97,20 +100,22 @@ Qed.
 
 (** in a nested body: the new construct runs into the closing delimiter of the
     construct [f] the delimiter was inserted in.  [closer_of f = Some c]: that
-    closing delimiter as a stray token ([}], [\)], [\]]; none for [$ $]) *)
+    closing delimiter as a stray token ([}], [\)], [\]]; none for [$ $] and
+    [$$ $$]: a [$] / [$$] met by the collector of the new construct is not
+    rejected, it opens a formula) *)
 Definition closer_of (f : frame) : option stray :=
   match f with
   | FGrp _ _ _ _ | FMac _ _ _ _ _ _ _ _ => Some SBrace
   | FMath _ _ MParen _ _ => Some (SMClose MParen)
   | FMath _ _ MBracket _ _ => Some (SMClose MBracket)
-  | FMath _ _ MDollar _ _ => None
+  | FMath _ _ MDollar _ _ | FMath _ _ MDollars _ _ => None
   end.
 
 Lemma closer_of_text f c : closer_of f = Some c -> closer_text f = stray_text c /\ stray_wf c.
 Proof.
   destruct f as [b ws tr a|b ws k tr a|b ws name post a1 tr a2 a]; cbn [closer_of closer_text].
   - intros E. injection E as <-. split; [reflexivity | exact I].
-  - destruct k; intros E; try discriminate; injection E as <-; (split; [reflexivity | cbn; intro; discriminate]).
+  - destruct k; intros E; try discriminate; injection E as <-; (split; [reflexivity | cbn; split; intro; discriminate]).
   - intros E. injection E as <-. split; [reflexivity | exact I].
 Qed.
 
@@ -385,7 +390,7 @@ Lemma hd_error_pre (x y z : str) : x <> [] -> hd_error ((x ++ y) ++ z) = hd_erro
 Proof. destruct x; [congruence|reflexivity]. Qed.
 
 Theorem fault_close_math_same cx path b ws k tr a l1 l2 dtr :
-  k <> MDollar ->
+  k <> MDollar -> k <> MDollars ->
   let f := FMath b ws k tr a in
   let hs := lp_state cx (walker_state cx) (lefts path) in
   ok_doc cx (zdoc (path ++ [f]) l1 l2 dtr) = true ->
@@ -398,7 +403,7 @@ Theorem fault_close_math_same cx path b ws k tr a l1 l2 dtr :
     = PErr e (q + 2)
     /\ pe_pos e = Some q /\ pe_what e = 4.
 Proof.
-  intros KD f hs OKD CH OK2 L q. unfold ok_doc, ok_doc_in, zdoc in OKD. cbn [d_items d_trail] in OKD.
+  intros KD KD2 f hs OKD CH OK2 L q. unfold ok_doc, ok_doc_in, zdoc in OKD. cbn [d_items d_trail] in OKD.
   apply andb_true_iff in OKD. destruct OKD as [OKD _]. rewrite plug_app in OKD.
   destruct (ok_plug cx path _ _ _ OKD) as (OKP & DLb & fh' & OKH). fold hs in OKH.
   cbn [plug plug_frame f] in OKH, DLb.
@@ -415,8 +420,8 @@ Proof.
       destruct ws; cbn [app hd_error]; [|reflexivity]. destruct k; reflexivity.
     - rewrite ok_items_cons. apply andb_true_iff. split; [|exact OK2].
       rewrite ok_item_math, M, W. cbn [andb].
-      replace (match k with MDollar => _ | _ => true end) with true by (destruct k; [congruence|reflexivity|reflexivity]).
-      rewrite andb_true_r. eapply ok_items_follow; [|exact OK1]. destruct k; [congruence|exact inertf_92|exact inertf_92]. }
+      replace (match k with MDollar => _ | _ => true end) with true by (destruct k; [congruence|reflexivity|reflexivity|congruence]).
+      rewrite andb_true_r. eapply ok_items_follow; [|exact OK1]. destruct k; [congruence|exact inertf_92|exact inertf_92|congruence]. }
   assert (NEp : unparse_items b ++ ws ++ m_open k <> []).
   { destruct (unparse_items b); [|discriminate]. destruct ws; [|discriminate]. destruct k; discriminate. }
   assert (ND : last_dollar path = true -> not_dollar (hd_error (unparse_items L ++ tr ++ stray_text (SMClose k)))).
@@ -433,9 +438,9 @@ Proof.
     rewrite E2, (hd_error_pre _ _ _ NEp). rewrite E1, (hd_error_pre _ _ _ NEp) in DLb. apply DLb.
     intros E. apply app_eq_nil in E. destruct E as [E _]. apply app_eq_nil in E. destruct E as [E _]. exact (NEp E). }
   destruct (fault_closing cx (lefts path) L tr (SMClose k) (unparse_items a ++ rp_text path ++ dtr)
-              (OKP _ ND) OKL Wt KD CH) as (e & H & P & Wh).
+              (OKP _ ND) OKL Wt (conj KD KD2) CH) as (e & H & P & Wh).
   cbn zeta in H. fold hs in H.
-  assert (LC : length (stray_text (SMClose k)) = 2) by (destruct k; [congruence|reflexivity|reflexivity]).
+  assert (LC : length (stray_text (SMClose k)) = 2) by (destruct k; [congruence|reflexivity|reflexivity|congruence]).
   rewrite LC in H.
   exists e. split; [|split; [exact P | exact Wh]].
   assert (TXT : zleft (path ++ [f]) l1 ++ m_close k ++ zright (path ++ [f]) l2 dtr
@@ -608,23 +613,26 @@ Proof.
   exists e. rewrite TXT. auto.
 Qed.
 
-(** * A [$] inserted in a [$ $] formula: it closes the formula early; the rest
+(** * A [$] inserted in a [$ $] formula, or a [$$] inserted in a [$$ $$] formula
+    ([k] = [MDollar] / [MDollars]): it closes the formula early; the rest
     [l2] of the formula body is read in the enclosing body (outside math mode:
-    it has to be well formed there too) and the formula's own closing [$] OPENS
+    it has to be well formed there too) and the formula's own closing [$] / [$$] OPENS
     a new formula, which swallows what follows (it has to be well formed in
-    math mode) and is never closed / runs into the enclosing closing delimiter. *)
-Section DollarEarly.
-  Variables (cx : context) (b : list item) (ws tr : str) (a l1 l2 : list item).
-  Let f := FMath b ws MDollar tr a.
-  Let L := b ++ Math ws MDollar l1 [] :: l2.
+    math mode) and is never closed / runs into the enclosing closing delimiter.
+    For [$] the insertion point is not the start of the body ([$$] would be the
+    display delimiter) and what follows the formula does not start with [$]. *)
+Definition dollar_kind (k : mathkind) : Prop := k = MDollar \/ k = MDollars.
 
-  Lemma dollar_early_ok hs fh :
-    ok_items cx hs (plug_frame f (l1 ++ l2)) fh = true -> unparse_items l1 <> [] ->
-    ok_items cx hs l2 (hd_error (tr ++ [36%N])) = true ->
-    ok_items cx hs L (hd_error (tr ++ [36%N])) = true /\ ws_ok tr = true /\ f_in_math (ps_f hs) = false
-    /\ ok_items cx hs a fh = true.
+Lemma dollar_kind_open k : dollar_kind k -> m_open k = m_close k.
+Proof. intros [->| ->]; reflexivity. Qed.
+
+  Lemma dollar_early_ok cx b ws k tr a l1 l2 (DK : dollar_kind k) hs fh :
+    ok_items cx hs (plug_frame (FMath b ws k tr a) (l1 ++ l2)) fh = true -> (k = MDollar -> unparse_items l1 <> []) ->
+    ok_items cx hs l2 (hd_error (tr ++ m_close k)) = true ->
+    ok_items cx hs (b ++ Math ws k l1 [] :: l2) (hd_error (tr ++ m_close k)) = true /\ ws_ok tr = true
+    /\ f_in_math (ps_f hs) = false /\ ok_items cx hs a fh = true.
   Proof.
-    intros OKH NE OK2. cbn [plug_frame f] in OKH.
+    intros OKH NE OK2. cbn [plug_frame] in OKH.
     rewrite ok_items_app in OKH. apply andb_true_iff in OKH. destruct OKH as [HB HX].
     rewrite ok_items_cons in HX. apply andb_true_iff in HX. destruct HX as [HX HA].
     rewrite ok_item_math in HX. apply andb_true_iff in HX. destruct HX as [HX DL].
@@ -633,102 +641,111 @@ Section DollarEarly.
     apply andb_true_iff in HX. destruct HX as [M W].
     rewrite ok_items_app in OKB. apply andb_true_iff in OKB. destruct OKB as [OK1 _].
     split; [|split; [exact Wt|split; [apply negb_true_iff; exact M | exact HA]]].
-    unfold L. rewrite ok_items_app. apply andb_true_iff. split.
+    rewrite ok_items_app. apply andb_true_iff. split.
     - rewrite <- HB. apply (f_equal (ok_items cx hs b)). rewrite !unparse_items_cons. cbn [unparse_item].
-      destruct ws; cbn [app hd_error]; reflexivity.
+      destruct ws; cbn [app hd_error]; [|reflexivity]. destruct DK as [->| ->]; reflexivity.
     - rewrite ok_items_cons. apply andb_true_iff. split; [|exact OK2].
       rewrite ok_item_math, M, W. cbn [andb]. apply andb_true_iff. split.
-      + eapply ok_items_follow; [exact inertf_36 | exact OK1].
-      + rewrite unparse_items_app in DL. rewrite app_nil_r.
+      + eapply ok_items_follow; [|exact OK1]. destruct DK as [->| ->]; exact inertf_36.
+      + destruct DK as [->| ->]; [|reflexivity].
+        rewrite unparse_items_app in DL. rewrite app_nil_r. specialize (NE eq_refl).
         destruct (unparse_items l1) as [|c0 r0]; [congruence|]. cbn [app] in DL |- *. exact DL.
   Qed.
 
-  Lemma dollar_early_text pre post :
-    (pre ++ lf_text (left_of f)) ++ unparse_items l1 ++ [36%N] ++ (unparse_items l2 ++ right_text f ++ post)
-    = pre ++ unparse_items L ++ tr ++ [36%N] ++ unparse_items a ++ post.
+  Lemma dollar_early_text b ws k tr a l1 l2 (DK : dollar_kind k) pre post :
+    (pre ++ lf_text (left_of (FMath b ws k tr a))) ++ unparse_items l1 ++ m_close k
+      ++ (unparse_items l2 ++ right_text (FMath b ws k tr a) ++ post)
+    = pre ++ unparse_items (b ++ Math ws k l1 [] :: l2) ++ tr ++ m_open k ++ unparse_items a ++ post.
   Proof.
-    unfold L, f, lf_text. cbn [left_of lf_before lf_ws lf_open right_text m_open m_close].
-    rewrite unparse_items_app, unparse_items_cons. cbn [unparse_item m_open m_close]. fold (unparse_items l1).
+    unfold lf_text. cbn [left_of lf_before lf_ws lf_open right_text].
+    rewrite unparse_items_app, unparse_items_cons. cbn [unparse_item]. fold (unparse_items l1).
+    rewrite (dollar_kind_open k DK).
     rewrite ?app_nil_r, <- !app_assoc. cbn [app]. reflexivity.
   Qed.
-End DollarEarly.
 
 (** the formula stands at top level: rejected when the input ends *)
-Theorem fault_dollar_early_top cx b ws tr a l1 l2 dtr :
-  let f := FMath b ws MDollar tr a in
+Theorem fault_dollar_early_top cx b ws k tr a l1 l2 dtr :
+  dollar_kind k ->
+  let f := FMath b ws k tr a in
   let ps0 := walker_state cx in
-  ok_doc cx (zdoc [f] l1 l2 dtr) = true -> unparse_items l1 <> [] ->
-  ok_items cx ps0 l2 (hd_error (tr ++ [36%N])) = true ->
-  ok_items cx (ps_enter_math ps0 (Some [36%N])) a (hd_error dtr) = true ->
-  hd_not (fun c => N.eqb c 36) (unparse_items a ++ dtr) ->
-  let s := zleft [f] l1 ++ [36%N] ++ zright [f] l2 dtr in
-  let q := length (unparse_items (b ++ Math ws MDollar l1 [] :: l2)) + length tr + 1 in
+  ok_doc cx (zdoc [f] l1 l2 dtr) = true -> (k = MDollar -> unparse_items l1 <> []) ->
+  ok_items cx ps0 l2 (hd_error (tr ++ m_close k)) = true ->
+  ok_items cx (ps_enter_math ps0 (Some (m_open k))) a (hd_error dtr) = true ->
+  (k = MDollar -> hd_not (fun c => N.eqb c 36) (unparse_items a ++ dtr)) ->
+  let s := zleft [f] l1 ++ m_close k ++ zright [f] l2 dtr in
+  let q := length (unparse_items (b ++ Math ws k l1 [] :: l2)) + length tr + length (m_close k) in
   exists e, parse_top s false cx ps0 = PErr e (length s) /\ pe_pos e = Some q /\ pe_what e = 6.
 Proof.
-  intros f ps0 OKD NE OK2 OKA DL s q. unfold ok_doc, ok_doc_in, zdoc in OKD. cbn [d_items d_trail plug] in OKD.
+  intros DK f ps0 OKD NE OK2 OKA DL s q. unfold ok_doc, ok_doc_in, zdoc in OKD. cbn [d_items d_trail plug] in OKD.
   apply andb_true_iff in OKD. destruct OKD as [OKD Wd].
-  destruct (dollar_early_ok cx b ws tr a l1 l2 ps0 _ OKD NE OK2) as (OKL & Wt & M & _).
-  destruct (fault_opening cx (b ++ Math ws MDollar l1 [] :: l2) tr (OMath MDollar) a dtr OKL Wt M OKA Wd (fun _ => DL))
+  destruct (dollar_early_ok cx b ws k tr a l1 l2 DK ps0 _ OKD NE OK2) as (OKL & Wt & M & _).
+  rewrite <- (dollar_kind_open k DK) in OKL.
+  assert (DL' : OMath k = OMath MDollar -> hd_not (fun c => N.eqb c 36) (unparse_items a ++ dtr)).
+  { intros E. injection E as E. exact (DL E). }
+  destruct (fault_opening cx (b ++ Math ws k l1 [] :: l2) tr (OMath k) a dtr OKL Wt M OKA Wd DL')
     as (e & H & P & Wh).
-  cbn zeta in H. cbn [open_text m_open length] in H, P.
-  assert (TXT : s = unparse_items (b ++ Math ws MDollar l1 [] :: l2) ++ tr ++ [36%N] ++ unparse_items a ++ dtr).
+  cbn zeta in H. cbn [open_text] in H, P.
+  assert (TXT : s = unparse_items (b ++ Math ws k l1 [] :: l2) ++ tr ++ m_open k ++ unparse_items a ++ dtr).
   { unfold s, zleft, zright. cbn [lefts map lp_text flat_map rp_text app]. rewrite app_nil_r.
-    pose proof (dollar_early_text b ws tr a l1 l2 [] dtr) as E. cbn [app] in E |- *.
-    rewrite <- !app_assoc. cbn [app]. exact E. }
-  exists e. rewrite TXT. auto.
+    pose proof (dollar_early_text b ws k tr a l1 l2 DK [] dtr) as E. cbn [app] in E |- *.
+    rewrite <- !app_assoc. exact E. }
+  exists e. rewrite TXT. unfold q. rewrite <- (dollar_kind_open k DK). auto.
 Qed.
 
 (** the formula stands in a nested body ([path ++ [g]], closing delimiter [c] of
     [g]): the new formula runs into [c] and is rejected there *)
-Theorem fault_dollar_early_nested cx path g b ws tr a l1 l2 dtr c :
-  let f := FMath b ws MDollar tr a in
+Theorem fault_dollar_early_nested cx path g b ws k tr a l1 l2 dtr c :
+  dollar_kind k ->
+  let f := FMath b ws k tr a in
   let hs := lp_state cx (walker_state cx) (lefts (path ++ [g])) in
-  ok_doc cx (zdoc ((path ++ [g]) ++ [f]) l1 l2 dtr) = true -> closer_of g = Some c -> unparse_items l1 <> [] ->
-  ok_items cx hs l2 (hd_error (tr ++ [36%N])) = true ->
-  ok_items cx (ps_enter_math hs (Some [36%N])) a (hd_error (frame_tr g ++ stray_text c)) = true ->
-  hd_not (fun c0 => N.eqb c0 36) (unparse_items a ++ frame_tr g ++ stray_text c) ->
-  let q := length (lp_text (lefts (path ++ [g]))) + length (unparse_items (b ++ Math ws MDollar l1 [] :: l2))
-           + length tr + 1 + length (unparse_items a) + length (frame_tr g) in
+  ok_doc cx (zdoc ((path ++ [g]) ++ [f]) l1 l2 dtr) = true -> closer_of g = Some c ->
+  (k = MDollar -> unparse_items l1 <> []) ->
+  ok_items cx hs l2 (hd_error (tr ++ m_close k)) = true ->
+  ok_items cx (ps_enter_math hs (Some (m_open k))) a (hd_error (frame_tr g ++ stray_text c)) = true ->
+  (k = MDollar -> hd_not (fun c0 => N.eqb c0 36) (unparse_items a ++ frame_tr g ++ stray_text c)) ->
+  let q := length (lp_text (lefts (path ++ [g]))) + length (unparse_items (b ++ Math ws k l1 [] :: l2))
+           + length tr + length (m_close k) + length (unparse_items a) + length (frame_tr g) in
   exists e,
-    parse_top (zleft ((path ++ [g]) ++ [f]) l1 ++ [36%N] ++ zright ((path ++ [g]) ++ [f]) l2 dtr)
+    parse_top (zleft ((path ++ [g]) ++ [f]) l1 ++ m_close k ++ zright ((path ++ [g]) ++ [f]) l2 dtr)
               false cx (walker_state cx)
     = PErr e (q + length (stray_text c))
     /\ pe_pos e = Some q /\ pe_what e = stray_what c.
 Proof.
-  intros f hs OKD CO NE OK2 OKA DL q. destruct (closer_of_text g c CO) as [CT SW].
+  intros DK f hs OKD CO NE OK2 OKA DL q. destruct (closer_of_text g c CO) as [CT SW].
   unfold ok_doc, ok_doc_in, zdoc in OKD. cbn [d_items d_trail] in OKD.
   apply andb_true_iff in OKD. destruct OKD as [OKD _]. rewrite plug_app in OKD. cbn [plug] in OKD.
   destruct (ok_plug_last cx path g _ _ _ OKD) as [OKB Wg]. fold hs in OKB. rewrite CT in OKB.
   destruct (ok_plug cx (path ++ [g]) _ _ _ OKD) as (OKP & DLb & _).
-  destruct (dollar_early_ok cx b ws tr a l1 l2 hs _ OKB NE OK2) as (OKL & Wt & M & _).
-  set (L := b ++ Math ws MDollar l1 [] :: l2) in *.
-  assert (ND : last_dollar (path ++ [g]) = true -> not_dollar (hd_error (unparse_items L ++ tr ++ open_text (OMath MDollar)))).
+  destruct (dollar_early_ok cx b ws k tr a l1 l2 DK hs _ OKB NE OK2) as (OKL & Wt & M & _).
+  rewrite <- (dollar_kind_open k DK) in OKL.
+  set (L := b ++ Math ws k l1 [] :: l2) in *.
+  assert (ND : last_dollar (path ++ [g]) = true -> not_dollar (hd_error (unparse_items L ++ tr ++ open_text (OMath k)))).
   { intros LD. exfalso. clear -LD CO. induction path as [|f0 r IH].
-    - cbn [app last_dollar] in LD. destruct g as [| ? ? k ? ?|]; try discriminate. destruct k; discriminate.
+    - cbn [app last_dollar] in LD. destruct g as [| ? ? k0 ? ?|]; try discriminate. destruct k0; discriminate.
     - cbn [app last_dollar] in LD. destruct (r ++ [g]) eqn:E; [destruct r; discriminate|]. apply IH. exact LD. }
-  assert (SO : stray_ok (open_opts (open_state cx hs (OMath MDollar)) (OMath MDollar)) c).
-  { destruct c as [|k|x]; try exact I. cbn. destruct k; [|discriminate|discriminate].
-    exfalso. cbn in SW. congruence. }
+  assert (SO : stray_ok (open_opts (open_state cx hs (OMath k)) (OMath k)) c).
+  { destruct c as [|k0|x]; try exact I. cbn. cbn in SW. destruct SW as [SW SW2].
+    destruct DK as [->| ->]; (destruct k0; [congruence|discriminate|discriminate|congruence]). }
   set (gg := after_text g ++ rp_text path ++ dtr).
-  assert (DL' : OMath MDollar = OMath MDollar ->
+  assert (DL' : OMath k = OMath MDollar ->
                 hd_not (fun c0 => N.eqb c0 36) (unparse_items a ++ frame_tr g ++ stray_text c ++ gg)).
-  { intros _. rewrite !app_assoc. rewrite !app_assoc in DL.
+  { intros E. injection E as E. specialize (DL E). rewrite !app_assoc. rewrite !app_assoc in DL.
     set (x := (unparse_items a ++ frame_tr g) ++ stray_text c) in *.
     assert (NEx : x <> []).
     { unfold x. destruct (stray_text_hd c) as (h & r & E1 & _). rewrite E1.
       destruct (unparse_items a ++ frame_tr g); discriminate. }
     destruct x; [congruence | exact DL]. }
-  destruct (fault_open_nested cx (lefts (path ++ [g])) L tr (OMath MDollar) a (frame_tr g) c gg
+  destruct (fault_open_nested cx (lefts (path ++ [g])) L tr (OMath k) a (frame_tr g) c gg
               (OKP _ ND) OKL Wt M OKA Wg SW SO DL') as (e & H & P & Wh).
-  cbn zeta in H. cbn [open_text m_open length] in H, P.
-  assert (TXT : zleft ((path ++ [g]) ++ [f]) l1 ++ [36%N] ++ zright ((path ++ [g]) ++ [f]) l2 dtr
-                = lp_text (lefts (path ++ [g])) ++ unparse_items L ++ tr ++ [36%N] ++ unparse_items a
+  cbn zeta in H. cbn [open_text] in H, P.
+  assert (TXT : zleft ((path ++ [g]) ++ [f]) l1 ++ m_close k ++ zright ((path ++ [g]) ++ [f]) l2 dtr
+                = lp_text (lefts (path ++ [g])) ++ unparse_items L ++ tr ++ m_open k ++ unparse_items a
                   ++ frame_tr g ++ stray_text c ++ gg).
   { unfold zleft, zright, gg. rewrite lefts_app, lp_text_app, rp_text_app, (rp_text_app path [g]).
     cbn [lefts map lp_text flat_map rp_text app]. rewrite app_nil_r, (right_text_split g), CT.
-    pose proof (dollar_early_text b ws tr a l1 l2 (lp_text (map left_of (path ++ [g])))
+    pose proof (dollar_early_text b ws k tr a l1 l2 DK (lp_text (map left_of (path ++ [g])))
                   (frame_tr g ++ stray_text c ++ after_text g ++ rp_text path ++ dtr)) as E.
     rewrite <- ?app_assoc. cbn [app]. rewrite <- ?app_assoc. rewrite <- ?app_assoc in E. cbn [app] in E.
     rewrite <- ?app_assoc in E. exact E. }
-  exists e. rewrite TXT. auto.
+  exists e. rewrite TXT. unfold q. rewrite <- (dollar_kind_open k DK). auto.
 Qed.
